@@ -14,6 +14,7 @@ CONSTANTS
   Funds = 1000
   Fees = {0, 1}
   WithRotate = TRUE
+  WithUpgradeRev = FALSE
   Delay = 0
   LimWhere <- AllLimWhere
   LimitSets <- NoLimits
